@@ -238,7 +238,7 @@ def build_class(inst, conf):
     from gemseo.mda.factory import MDAFactory
 
     cls, kind, inner = conf["cls"], conf["kind"], conf["inner"]
-    ds = D.make_disciplines(inst)
+    ds = D.make_disciplines(inst, split=bool(conf.get("split")))
     ds = [ds[i - 1] for i in conf["ord"]]
     base = dict(tolerance=10.0 ** (-conf["p"]), max_mda_iter=conf["maxit"], warm_start=conf["warm"])
     acc, relax = conf["acc"], conf["relax"]
@@ -275,7 +275,8 @@ def conf_sig(inst, conf, **more):
         solver = (conf["inner"] or "MDAJacobi>").split(">")[0]     # the fixed-point stage
     return dict({"cls": name, "solver": solver, "form": conf.get("form", "dict"), "acc": conf["acc"], "relax": conf["relax"],
                  "relax_is_one": conf["relax"] == 1.0, "scal": conf["scal"], "warm": conf["warm"],
-                 "fam": inst.fam, "gs_delayed_weak": bool(conf.get("gs_delayed_weak"))}, **more)
+                 "fam": inst.fam, "gs_delayed_weak": bool(conf.get("gs_delayed_weak")),
+                 "split": bool(conf.get("split"))}, **more)
 
 
 def run_conf(ck, rid, inst, conf):
@@ -294,7 +295,8 @@ def run_conf(ck, rid, inst, conf):
     ck.traces += 1
     tol = 10.0 ** (-conf["p"])
     rep = out.get(RES)
-    y = D.coupling_vector(inst, out)
+    split = bool(conf.get("split"))
+    y = D.coupling_vector(inst, out, split)
     detail = {"inst": inst.json(), "conf": conf, "y": y.tolist(),
               "reported_residual": None if rep is None else float(np.asarray(rep).real[0]),
               "iterations": len(getattr(mda, "residual_history", []))}
@@ -313,7 +315,7 @@ def run_conf(ck, rid, inst, conf):
         # the calibrated convergence clause: a contractive / nilpotent system must be reported converged
         ck.violation("ReportsConvergence", sig, detail)
         return None
-    rho = D.reexecution_residual(inst, out, inst.xs[runs - 1])
+    rho = D.reexecution_residual(inst, out, inst.xs[runs - 1], split)
     return {"id": rid, "inst": inst.json(), "kind": conf["kind"], "ord": conf["ord"], "scal": conf["scal"],
             "p": conf["p"], "run": runs, "y": [D.big_dyadic(v) for v in y], "rho": [D.big_dyadic(v) for v in rho],
             "_sig": sig, "_detail": detail}
@@ -381,6 +383,23 @@ def sample_confs(rnd, case, n, cover):
                     "ord": list(order), "warm": bool(warm), "p": rnd.choice([10, 10, 6]), "maxit": 200,
                     "gs_delayed_weak": cls == "MDAGaussSeidel" and order in dw,
                     "form": "model" if cls == "MDAChain" and inner != "MDAGSNewton" and rnd.random() < 0.5 else "dict"})
+    if D.private_self_couplings(inst):
+        # the same system with one variable per component: a component read by its own discipline only,
+        # inside a larger group, is a strong coupling of that group (every class must resolve it); the
+        # un-accelerated configurations of this instance are replayed under that naming, with the scalings
+        # whose reference does not depend on how the components are grouped into variables
+        for conf in list(out):
+            if conf["acc"] == "NoTransformation" and conf["relax"] == 1.0 or conf["kind"] == "root":
+                out.append(dict(conf, split=True, scal=conf["scal"] if conf["scal"] in ("no", "ncpl", "init") else "no"))
+        for ci, (cls, kind, inner) in enumerate(CLASSES):
+            newton = (inner is None and cls in NEEDS_ALL_STRONG) or (cls == "MDASequential" and "Newton" in (inner or ""))
+            if newton and not allstrong:
+                continue
+            if cls == "MDAChain" and ngroups > 1 and kind != "root":
+                kind = "chain"
+            out.append({"cls": cls, "kind": kind, "inner": inner, "acc": "NoTransformation", "relax": 1.0,
+                        "scal": "no", "ord": list(rnd.choice(perms)), "warm": False, "p": 10, "maxit": 200,
+                        "gs_delayed_weak": False, "form": "dict", "split": True})
     return out
 
 
@@ -441,6 +460,9 @@ def run(ck: Check):
     ck.extra["instances_by_family"] = {f: sum(1 for c in cases if c[0].fam == f) for f in ("nil", "con")}
     ck.extra["instances_with_several_groups"] = sum(1 for c in cases if c[2] > 1)
     ck.extra["instances_with_delayed_weak_orders"] = sum(1 for c in cases if c[3])
+    ck.extra["instances_with_private_self_coupling"] = sum(1 for c in cases if D.private_self_couplings(c[0]))
+    if not ck.extra["instances_with_private_self_coupling"]:
+        raise MachineryError("no instance with a private self-coupled component inside a larger group")
     # the rules of gauss_seidel.py as they were before fix faa2efe do NOT satisfy the specification's own
     # properties: TLC refutes APost / NilStop (D0601) - recorded; the conformance uses the repaired rules
     ra = ck.tlc("MDA", consts(**dict(base, profiles=(222,), seeds=seeds[:16]), algs=("GS",), ws=(2,), tols=(2,),
